@@ -67,7 +67,7 @@ func exportProblem(b *built, f *Func) string {
 // case is re-run under the full one before it is reported).
 const (
 	callTimeout            = 10 * time.Second
-	minimiseTimeout        = 300 * time.Millisecond
+	minimiseTimeout        = 100 * time.Millisecond
 	minimiseNontermTimeout = 1 * time.Second
 	nontermStmtLimit       = 10000
 	mkNonterm              = "call-does-not-terminate"
